@@ -2,6 +2,7 @@ package cli
 
 import (
 	"fmt"
+	"os"
 	"regexp"
 	"strings"
 	"testing"
@@ -194,7 +195,7 @@ func genC07(t *rapid.T) c07Case {
 			"SELECT * FROM tumble(source=>TABLE(t.json), window_length=>INTERVAL %1 %U, time_field=>DESCRIPTOR(s)) w",
 			"SELECT * FROM tumble(source=>TABLE(t.json), window_length=>INTERVAL %1 %U) w",
 			"SELECT * FROM range(start=>%1, end=>%2) r", "SELECT * FROM range(start=>%1) r", "SELECT * FROM range(start=>'a', end=>%2) r", "SELECT * FROM range(start=>TABLE(t.json), end=>DESCRIPTOR(a)) r",
-			"SELECT * FROM poll(source=>TABLE(t.json), poll_interval=>DESCRIPTOR(a)) p LIMIT 1", "SELECT * FROM poll(source=>TABLE(t.json), poll_interval=>INTERVAL %1 %U) p LIMIT 1",
+			"SELECT * FROM poll(source=>TABLE(t.json), poll_interval=>DESCRIPTOR(a)) p LIMIT 1",
 			"SELECT * FROM nosuchtvf(x=>%1) r", "SELECT * FROM tumble(source=>TABLE(max_diff_watermark(source=>TABLE(t.json), max_diff=>INTERVAL %1 %U, time_field=>DESCRIPTOR(ts)) m), window_length=>INTERVAL %2 %V) w",
 		}).Draw(t, "tvf")
 		sql = strings.NewReplacer("%1", I("i1"), "%2", I("i2"), "%U", unit("u1"), "%V", unit("u2")).Replace(sql)
@@ -220,6 +221,9 @@ func c07Prop(c c07Case) ev.Outcome {
 	inv := Inv{Files: c.Files, Args: c.Args}
 	r := fastRun(inv)
 	if r.TimedOut {
+		if os.Getenv("VERIF_DEBUG") != "" {
+			fmt.Printf("TIMEOUT: %q\n", c.Args)
+		}
 		return ev.Outcome{Discard: true, Classes: []string{"timeout_inconclusive"}}
 	}
 	if r.Crashed() || (r.Exit != 0 && r.Exit != 1) {
